@@ -14,7 +14,8 @@ OP, LANE, NLANES, OUT = sys.argv[1], int(sys.argv[2]), int(sys.argv[3]), sys.arg
 LANEDIR = '/tmp/mutlane_%s_%d' % (OP, LANE)
 REPO = os.path.join(LANEDIR, 'repo')
 VERIF = os.path.join(LANEDIR, 'verif')
-CHECKS = {'isdigit': ['C01', 'C15'], 'nostrip': ['C02', 'C03', 'C01'], 'slashd': ['C15', 'C01'], 'fmtraw': ['C04']}[OP]
+CHECKS = {'isdigit': ['C01', 'C15'], 'nostrip': ['C02', 'C03', 'C01'], 'slashd': ['C15', 'C01'], 'fmtraw': ['C04'],
+          'exc': ['C01', 'C12'], 'nodigits': ['C01', 'C15'], 'isvalidexc': ['C01'], 'valraw': ['C03', 'C02', 'C01']}[OP]
 
 
 def sh(cmd, **kw):
@@ -43,6 +44,22 @@ def mutate(src):
                 q = m.start() + len(m.group(1)) - 1
                 new = new[:q] + 'r' + new[q:]
             return new
+    if OP == 'exc':          # a caught ValueError (calendar, int) is no longer translated into a ValidationError
+        if 'except ValueError:' in src:
+            return src.replace('except ValueError:', 'except KeyError:', 1)
+    if OP == 'nodigits':     # the first digits-only guard disappears
+        m = re.search(r'\n( +)if not isdigits\(number(?:\[[^\]]*\])?\):\n +raise InvalidFormat\(\)', src)
+        if m:
+            return src[:m.start()] + src[m.end():]
+    if OP == 'isvalidexc':   # is_valid() catches only one kind of validation error
+        m = re.search(r'def is_valid\(.*?except ValidationError:', src, re.S)
+        if m:
+            return src[:m.end() - len('ValidationError:')] + 'InvalidFormat:' + src[m.end():]
+    if OP == 'valraw':       # validate() strips but no longer compacts
+        m = re.search(r'def validate\(number[^)]*\):.*?(?=\n\n\n|\Z)', src, re.S)
+        if m and 'number = compact(number)' in m.group(0):
+            body = m.group(0).replace('number = compact(number)', 'number = number.strip()', 1)
+            return src[:m.start()] + body + src[m.end():]
     if OP == 'fmtraw':
         m = re.search(r'def format\(number[^)]*\):.*?(?=\n\n\n|\Z)', src, re.S)
         if m and 'compact(number)' in m.group(0):
